@@ -158,8 +158,35 @@ def as_array(t):
     return _arr_memo[t]
 
 
+LIST_LEN = {'lec_targets': 'num_lecturers', 'lec_upper_quotas': 'num_lecturers', 'lec_lower_quotas': 'num_lecturers',
+            'proj_upper_quotas': 'num_projects', 'proj_lower_quotas': 'num_projects', 'proj_lecturers': 'num_projects', 'pairs': 'num_students'}
+
+
+def attr_list_copy(t):
+    """X[:N], X[:], list(X) of a per-agent list attribute X of the model (N its length) -> [X[i] for i in range(N)]"""
+    x = t
+    if x[0] == 'slice' and x[2] in (NONE, C(0)):
+        base, hi = x[1], x[3]
+    elif x[0] == 'call' and x[1] in (S('list'), S('tuple')) and len(x[2]) == 1 and x[2][0][0] == 'attr':
+        base, hi = x[2][0], NONE
+    elif x[0] == 'call' and x[1][0] == 'attr' and x[1][2] == 'copy' and not x[2]:
+        base, hi = x[1][1], NONE
+    else:
+        return None
+    if base[0] != 'attr' or base[2] not in LIST_LEN:
+        return None
+    n = A(base[1], LIST_LEN[base[2]])
+    if hi != NONE and hi != n:
+        return None
+    i = BVK(('copy', t), 'i', RANGE(n))
+    return ('array', n, i, I(base, i))
+
+
 def _as_array(t):
     """[c] * N  -> array form"""
+    r = attr_list_copy(t)
+    if r is not None:
+        return r
     if t[0] == 'bin' and t[1] == 'Mult':
         for lst, n in ((t[2], t[3]), (t[3], t[2])):
             if lst[0] == 'list' and len(lst[1]) == 1:
@@ -168,7 +195,81 @@ def _as_array(t):
     if t[0] == 'comp' and len(t[1]) == 1 and t[1][0][1] == TRUE and is_range1(t[1][0][0][3]):
         b = t[1][0][0]
         return ('array', b[3][2][0], b, t[2])
+    if t[0] == 'comp' and len(t[1]) == 1 and t[1][0][1] == TRUE:
+        b = t[1][0][0]
+        d = b[3]
+        if d[0] == 'call' and d[1] == S('range') and len(d[2]) == 2 and not d[3] and d[2][0][0] == 'const' and isinstance(d[2][0][1], int):
+            # [v(k) for k in range(c, H)] == [v(i + c) for i in range(H - c)]
+            lo, hi = d[2]
+            n = lin_const(BIN('Sub', hi, lo)) or BIN('Sub', hi, lo)
+            i = BVK(('shift', b[1]), 'i', RANGE(n))
+            return ('array', n, i, replace(t[2], b, lin_const(BIN('Add', i, lo)) or BIN('Add', i, lo)))
     return None
+
+
+def lin_parts(t):
+    """t as (list of (sign, atom)), integer constant) over + and - ; atoms are arbitrary terms"""
+    if t[0] == 'const' and isinstance(t[1], int) and not isinstance(t[1], bool):
+        return [], t[1]
+    if t[0] == 'bin' and t[1] in ('Add', 'Sub'):
+        a, ca = lin_parts(t[2])
+        b, cb = lin_parts(t[3])
+        if t[1] == 'Add':
+            return a + b, ca + cb
+        return a + [(-s_, x) for s_, x in b], ca - cb
+    if t[0] == 'un' and t[1] == 'USub':
+        a, ca = lin_parts(t[2])
+        return [(-s_, x) for s_, x in a], -ca
+    return [(1, t)], 0
+
+
+def lin_build(atoms, c):
+    out = None
+    for s_, x in [a for a in atoms if a[0] > 0] + [a for a in atoms if a[0] < 0]:
+        if out is None:
+            out = x if s_ > 0 else ('un', 'USub', x)
+        else:
+            out = BIN('Add' if s_ > 0 else 'Sub', out, x)
+    if out is None:
+        return C(c)
+    if c > 0:
+        return BIN('Add', out, C(c))
+    if c < 0:
+        return BIN('Sub', out, C(-c))
+    return out
+
+
+def lin_const(t):
+    """fold the integer constants of a +/- expression into one trailing constant; cancels x - x.  None when unchanged"""
+    atoms, c = lin_parts(t)
+    pos = [x for s_, x in atoms if s_ > 0]
+    neg = [x for s_, x in atoms if s_ < 0]
+    for x in list(pos):
+        if x in neg:
+            pos.remove(x)
+            neg.remove(x)
+    r = lin_build([(1, x) for x in pos] + [(-1, x) for x in neg], c)
+    return None if r == t else r
+
+
+def norm_eq(t):
+    """a - 1 == i   ->   a == i + 1 : integer constants of an (in)equation gathered on one side, positive"""
+    la, ca = lin_parts(t[2])
+    lb, cb = lin_parts(t[3])
+    if ca == 0 and cb >= 0:
+        return None
+    if ca == 0 and cb < 0 and not (t[3][0] == 'const'):
+        pass
+    d = cb - ca                  # A + ca == B + cb   <=>   A == B + d
+    if t[3][0] == 'const' and ca == 0:
+        return None
+    if not la or (not lb and d < 0):
+        return None
+    if d >= 0:
+        r = ('cmp', t[1], lin_build(la, 0), lin_build(lb, d))
+    else:
+        r = ('cmp', t[1], lin_build(la, -d), lin_build(lb, 0))
+    return None if r == t else r
 
 
 def norm_chain(chain, *vals):
@@ -191,6 +292,17 @@ def norm_chain(chain, *vals):
             rest = [(rw_b(bb, rw), rw(gg)) for bb, gg in chain[k + 1:]]
             vals = [rw(v) for v in vals]
             return tuple(out) + ((r, TRUE), (nb, rw(g))) + tuple(rest), vals
+        if dom[0] == 'call' and dom[1] == S('range') and len(dom[2]) == 2 and not dom[3] and dom[2][0][0] == 'const' and isinstance(dom[2][0][1], int) and dom[2][0][1] != 0:
+            # for k in range(c, H)  ==  for i in range(H - c) with k := i + c
+            lo, hi = dom[2]
+            n_ = lin_const(BIN('Sub', hi, lo)) or BIN('Sub', hi, lo)
+            i = BVK(('shift', b[1]), 'i', RANGE(n_))
+            k_ = lin_const(BIN('Add', i, lo)) or BIN('Add', i, lo)
+            def rw(x, b=b, k_=k_):
+                return replace(x, b, k_)
+            rest = [(rw_b(bb, rw), rw(gg)) for bb, gg in chain[k + 1:]]
+            vals = [rw(v) for v in vals]
+            return tuple(out) + ((i, rw(g)),) + tuple(rest), vals
         n = array_len(dom) if dom[0] in ('array', 'accum') else None
         if n is not None:
             i = BVK(('arr', b[1]), 'i', RANGE(n))
@@ -277,6 +389,42 @@ def string_step(t):
     return None if r == t else r
 
 
+def rotate_rep(t):
+    """A (c X)* c S  ==  A c (X c)* S : a repeated item that starts with the literal the following text starts with is
+    rewritten to END with that literal (canonical form of separator-like literals)"""
+    parts = list(t[1])
+    for k, p_ in enumerate(parts):
+        if p_[0] != 'srep' or p_[3] not in (C(None), C('')) or k + 1 >= len(parts):
+            continue
+        inner = p_[2]
+        if inner[0] != 'fstr' or not inner[1] or inner[1][0][0] != 'const' or not isinstance(inner[1][0][1], str):
+            continue
+        nxt = parts[k + 1]
+        if nxt[0] != 'const' or not isinstance(nxt[1], str):
+            continue
+        head = inner[1][0][1]
+        # the whole leading literal of the item must be a prefix of the text that follows the repetition
+        if not head or not nxt[1].startswith(head) or len(inner[1]) < 2:
+            continue
+        body = list(inner[1][1:])
+        if body[-1][0] == 'const' and isinstance(body[-1][1], str):
+            body[-1] = C(body[-1][1] + head)
+        else:
+            body.append(C(head))
+        new_parts = parts[:k]
+        if new_parts and new_parts[-1][0] == 'const' and isinstance(new_parts[-1][1], str):
+            new_parts[-1] = C(new_parts[-1][1] + head)
+        else:
+            new_parts.append(C(head))
+        new_parts.append(('srep', p_[1], ('fstr', tuple(body)), p_[3]))
+        rest = nxt[1][len(head):]
+        if rest:
+            new_parts.append(C(rest))
+        new_parts += parts[k + 2:]
+        return ('fstr', tuple(new_parts))
+    return None
+
+
 NEG_CMP = {'Eq': 'NotEq', 'NotEq': 'Eq', 'Is': 'IsNot', 'IsNot': 'Is', 'In': 'NotIn', 'NotIn': 'In'}
 
 
@@ -306,6 +454,10 @@ def step(t):
     r = string_step(t)
     if r is not None:
         return r
+    if t[0] == 'fstr':
+        r = rotate_rep(t)
+        if r is not None:
+            return r
     r = dict_scatter(t)
     if r is not None:
         return r
@@ -318,10 +470,20 @@ def step(t):
             return a
         if op == 'Pow' and b == C(2):
             return BIN('Mult', a, a)
+        if op == 'Pow' and b == C(1):
+            return a
+        if op in ('Add', 'Sub'):
+            r = lin_const(t)
+            if r is not None:
+                return r
         ar = as_array(t)
         if ar is not None:
             return ar
         return None
+    if k in ('slice', 'call'):
+        r = attr_list_copy(t)
+        if r is not None:
+            return r
     if k == 'comp':
         nc = norm_chain(t[1], t[2])
         if nc is not None:
@@ -356,6 +518,27 @@ def step(t):
         return None
     if k == 'idx' and t[1][0] == 'array':
         return elem(t[1], t[2])
+    if k == 'idx' and t[1][0] == 'call' and t[1][1] in (S('Counter'), A(S('collections'), 'Counter')) and len(t[1][2]) == 1 and t[1][2][0][0] == 'comp':
+        x = t[1][2][0]                     # Counter(v for chain)[k] == number of chain elements with v == k
+        ch = x[1][:-1] + ((x[1][-1][0], AND(x[1][-1][1], CMP('Eq', x[2], t[2]))),)
+        return ('sum', ch, C(1))
+    if k == 'idx' and t[1][0] == 'accum' and t[1][1][0] == 'array' and t[1][2] and all(e[0] in ('addidx', 'subidx') for e in t[1][2]) \
+            and not contains(t[1], lambda x: x[0] in ('carried', 'prefix')):
+        # element j of an additive scatter: the base element plus the sum of the values scattered to j
+        base = elem(t[1][1], t[2])
+        out = None if base == C(0) else base
+        for op, idx, val, ch in t[1][2]:
+            ch2 = ch[:-1] + ((ch[-1][0], AND(ch[-1][1], CMP('Eq', idx, t[2]))),)
+            term = ('sum', ch2, val)
+            if op == 'addidx':
+                out = term if out is None else BIN('Add', out, term)
+            else:
+                out = BIN('Sub', C(0) if out is None else out, term)
+        return out
+    if k == 'cmp' and t[1] in ('Eq', 'NotEq'):
+        r = norm_eq(t)
+        if r is not None:
+            return r
     if k == 'ite':
         c, a, b = t[1], t[2], t[3]
         if c[0] == 'cmp' and c[1] in ('Gt', 'GtE') and ((c[2] == a and c[3] == b)):
@@ -371,6 +554,23 @@ def step(t):
             return ('fstr', (args[0],))
         if f == S('pow') and len(args) == 2 and args[1] == C(2):
             return BIN('Mult', args[0], args[0])
+        if f == S('pow') and len(args) == 2 and args[1] == C(1):
+            return args[0]
+        if f[0] == 'attr' and f[2] == 'count' and len(args) == 1 and not kw and f[1][0] in ('comp', 'array', 'accum'):
+            # X.count(k) == number of elements of X equal to k
+            x = f[1]
+            if x[0] == 'comp':
+                ch = x[1][:-1] + ((x[1][-1][0], AND(x[1][-1][1], CMP('Eq', x[2], args[0]))),)
+                return ('sum', ch, C(1))
+            b = BVK(('count', t), 'e', x)
+            return ('sum', ((b, CMP('Eq', b, args[0])),), C(1))
+        if f in (S('Counter'), A(S('collections'), 'Counter')):
+            return None
+        if f[0] == 'attr' and f[2] == 'get' and len(args) == 2 and args[1] == C(0) and f[1][0] == 'call' and f[1][1] in (S('Counter'), A(S('collections'), 'Counter')) \
+                and len(f[1][2]) == 1 and f[1][2][0][0] == 'comp':
+            x = f[1][2][0]
+            ch = x[1][:-1] + ((x[1][-1][0], AND(x[1][-1][1], CMP('Eq', x[2], args[0]))),)
+            return ('sum', ch, C(1))
         if f == S('abs') and len(args) == 1 and args[0][0] == 'bin' and args[0][1] == 'Sub':
             a, b = args[0][2], args[0][3]
             return ('max2', BIN('Sub', a, b), BIN('Sub', b, a))
